@@ -42,7 +42,7 @@ def prepare(kind, name, patch=None):
             base = vb
             VARIANT_BASE[(kind, name)] = vb
     patch = patch or f"{VERIF}/{kind}/{name}/patch.diff"
-    rc, out = sh(f"git -C /repo archive {base} msmart reference | tar -x -C {d} && cd {d} && git apply --whitespace=nowarn {patch}")
+    rc, out = sh(f"git -C /repo archive {base} | tar -x -C {d} && cd {d} && git apply --whitespace=nowarn {patch}")
     return rc == 0, out
 
 
